@@ -282,4 +282,140 @@ theorem decompose_shallow (fuel : Nat) (l : Layer R) (g g' : Glyph R) (idx : Nat
 
 end Ring
 
+/-! ## 5. Segment pens (`Glyph.draw(pen)` into `otherGlyph.getPen()`) -/
+
+section Seg
+variable [DecidableEq R]
+
+/-- Point pen → `PointToSegmentPen` → segment protocol → `SegmentToPointPen` → point pen, for one contour
+in the domain the segment protocol can express (`SegFaithful`: see its definition): exactly one contour
+comes back, with the same points in the same cyclic order — same coordinates, same segment types —
+starting at the first on-curve point (closed contours that begin with off-curve points are rotated;
+everything else is unchanged).  Smooth flags, names and identifiers are NOT carried by the segment
+protocol: they come back as `False` / `None` (`Point.strip`); fontTools then re-guesses `smooth`
+from angles, which is outside the model. -/
+theorem segment_roundtrip (pts : List (Point R)) (h : SegFaithful pts) :
+    segRoundTrip pts = some (drawContour ⟨none, (rotateToFirstOn pts).map Point.strip⟩) :=
+  segRoundTrip_faithful pts h
+
+/-- Rebuilt through a glyph pen: the empty glyph receives exactly that one contour. -/
+theorem segment_roundtrip_build [OfNat R 0] [OfNat R 1] (n : Option String) (pts : List (Point R))
+    (h : SegFaithful pts) :
+    ∃ evs g', segRoundTrip pts = some evs ∧ build false evs (Glyph.fresh n) = .ok g' ∧
+      g'.contours = [⟨none, (rotateToFirstOn pts).map Point.strip⟩] ∧ g'.components = [] := by
+  obtain ⟨g', h1, h2, h3, _⟩ := build_draw_contour (R := R) n ⟨none, (rotateToFirstOn pts).map Point.strip⟩
+    (by rw [show (⟨none, (rotateToFirstOn pts).map Point.strip⟩ : Contour R).slots =
+              none :: ((rotateToFirstOn pts).map Point.strip).map (·.ident) from rfl, present_none, present_strip]
+        exact List.nodup_nil)
+  exact ⟨_, g', segment_roundtrip pts h, h1, h2, h3⟩
+
+/-- An open contour and a closed contour that starts on an on-curve point come back point for point. -/
+theorem segment_roundtrip_unrotated (pts : List (Point R)) (p : Point R) (r : List (Point R))
+    (hp : pts = p :: r) (hon : p.seg.isSome = true) (h : SegFaithful pts) :
+    segRoundTrip pts = some (drawContour ⟨none, pts.map Point.strip⟩) := by
+  rw [segment_roundtrip pts h]
+  subst hp
+  simp [rotateToFirstOn, firstOn, hon]
+
+end Seg
+
+/-! ## 6. Non-vacuity and witnesses (evaluated over `Int`) -/
+
+section Examples
+
+/-- closed contour starting with two off-curve points, names, smooth flag, identifiers -/
+def exCurve : Contour Int :=
+  ⟨some "c1", [⟨10, 0, none, false, some "n", none⟩, ⟨10, 10, none, false, none, none⟩,
+               ⟨0, 10, some .curve, true, none, some "p2"⟩, ⟨0, 0, some .line, false, some "top", some "p1"⟩]⟩
+/-- open contour with a quadratic run -/
+def exOpen : Contour Int :=
+  ⟨none, [⟨0, 0, some .move, false, none, none⟩, ⟨5, 9, none, false, none, none⟩, ⟨7, 3, none, false, none, none⟩,
+          ⟨9, 0, some .qcurve, false, none, none⟩, ⟨20, 0, some .line, false, none, none⟩]⟩
+/-- off-curve points only -/
+def exOff : Contour Int := ⟨some "c3", [⟨0, 0, none, false, none, none⟩, ⟨4, 0, none, false, none, none⟩, ⟨4, 4, none, false, none, none⟩]⟩
+
+def exA : Content Int :=
+  { width := 500, height := 0, unicodes := [65], note := some "n", image := ⟨some "i.png", ⟨1, 0, 0, 1, 3, 4⟩, none⟩,
+    anchors := [⟨some 1, some 2, some "top", none, some "a1"⟩], guidelines := [⟨some 5, none, none, none, none, some "g1"⟩],
+    lib := "{}", contours := [exCurve, exOpen, exOff], components := [] }
+/-- D = A scaled by 2 and shifted, plus an own contour REUSING A's identifiers c1, p1 -/
+def exD : Content Int :=
+  { exA with unicodes := [], anchors := [], guidelines := [],
+             contours := [⟨some "c1", [⟨1, 1, some .move, false, none, some "p1"⟩]⟩],
+             components := [⟨"A", ⟨2, 0, 0, 2, 5, 5⟩, some "k1"⟩, ⟨"missing", ⟨1, 0, 0, 1, 0, 0⟩, none⟩] }
+/-- F = D rotated by 90 degrees (nested, transformed) and A untransformed -/
+def exF : Content Int :=
+  { exD with contours := [], components := [⟨"D", ⟨0, 1, -1, 0, 100, 0⟩, none⟩, ⟨"A", ⟨1, 0, 0, 1, 0, 0⟩, some "k2"⟩] }
+
+def exGlyph (n : String) (c : Content Int) : Glyph Int := ((Glyph.ofContent (Glyph.fresh (some n)) c).toOption).getD (Glyph.fresh none)
+def exShallow (n : String) (c : Content Int) : Glyph Int := ((Glyph.load (Glyph.fresh (some n)) c).toOption).getD (Glyph.fresh none)
+def exLayer : Layer Int := [("A", exShallow "A" exA), ("D", exGlyph "D" exD), ("F", exGlyph "F" exF)]
+
+example : exA.Valid ∧ exD.Valid ∧ exF.Valid := by decide
+/-- the hypotheses of `build_draw_empty`/`rebuild_any_state` hold for a non-trivial outline, and the round trip is exact -/
+example : (identsOf exA.contours exA.components).Nodup := by decide
+example : (build false exA.draw (Glyph.fresh none)).toOption.map (·.draw) = some exA.draw := by decide
+example : (build false exA.draw (Glyph.fresh none)).toOption.map (·.ids) = some ["c1", "p2", "p1", "c3"] := by decide
+/-- a repeated identifier is rejected -/
+example : build false (drawContour exCurve ++ drawContour exCurve) (Glyph.fresh (none : Option String)) = (.error .assertion : Except Err (Glyph Int)) := by decide
+/-- shallow, full and new states of the same content: same stream; the shallow one has not registered its contour identifiers -/
+example : (exShallow "A" exA).shallow.isSome = true ∧ (exShallow "A" exA).ids = ["g1", "a1"] ∧
+    (exShallow "A" exA).draw = exA.draw ∧ (exGlyph "A" exA).draw = exA.draw ∧
+    (deepen (exShallow "A" exA)).toOption.map (·.draw) = some exA.draw := by decide
+/-- copy of a shallow source into a fresh glyph: all data equal, name its own -/
+example : (exShallow "A" exA).Valid := by decide
+example : (copyData (Glyph.fresh (some "B")) (exShallow "A" exA)).toOption.map (fun d => (d.obs, d.name)) =
+    some (exA.obs, some "B") := by decide
+/-- decomposition, one level: base outline under the map, conflicting identifiers c1/p1 dropped, others kept;
+the component with a missing base just disappears -/
+example : (decomposeAll 8 exLayer 2 (exGlyph "D" exD)).toOption.map (fun g => (g.contours, g.components, g.ids)) =
+    some ([⟨some "c1", [⟨1, 1, some .move, false, none, some "p1"⟩]⟩,
+           ⟨none, [⟨25, 5, none, false, some "n", none⟩, ⟨25, 25, none, false, none, none⟩,
+                   ⟨5, 25, some .curve, true, none, some "p2"⟩, ⟨5, 5, some .line, false, some "top", none⟩]⟩,
+           ⟨none, [⟨5, 5, some .move, false, none, none⟩, ⟨15, 23, none, false, none, none⟩, ⟨19, 11, none, false, none, none⟩,
+                   ⟨23, 5, some .qcurve, false, none, none⟩, ⟨45, 5, some .line, false, none, none⟩]⟩,
+           ⟨some "c3", [⟨5, 5, none, false, none, none⟩, ⟨13, 5, none, false, none, none⟩, ⟨13, 13, none, false, none, none⟩]⟩],
+          [], ["c1", "p1", "p2", "c3"]) := by decide
+/-- two levels, composed transformation (rotate ∘ scale), and the hypotheses of `decompose_spec` / `flatten_terminates` -/
+example : (flatten 8 exLayer "D" ⟨0, 1, -1, 0, 100, 0⟩).map (·.map (·.points.map (fun p => (p.x, p.y)))) =
+    some [[(99, 1)], [(95, 25), (75, 25), (75, 5), (95, 5)], [(95, 5), (77, 15), (89, 19), (95, 23), (95, 45)],
+          [(95, 5), (95, 13), (87, 13)]] := by decide
+/-- too little fuel is reported, never silently truncated -/
+example : flatten 1 exLayer "D" (⟨0, 1, -1, 0, 100, 0⟩ : Transform Int) = none := by decide
+example : ((decomposeAt 8 exLayer (exGlyph "F" exF) 0).toOption.map (fun g => g.contours.map (·.points.map (fun p => (p.x, p.y))))) =
+    some [[(99, 1)], [(95, 25), (75, 25), (75, 5), (95, 5)], [(95, 5), (77, 15), (89, 19), (95, 23), (95, 45)],
+          [(95, 5), (95, 13), (87, 13)]] := by decide
+example : Acyclic exLayer (fun n => if n = "F" then 2 else if n = "D" then 1 else 0) :=
+  acyclic_of_forall _ _ (by decide)
+/-- segment round trip: unrotated, rotated to the first on-curve point, off-curve only -/
+example : SegFaithful exCurve.points ∧ SegFaithful exOpen.points ∧ SegFaithful exOff.points := by decide
+example : segRoundTrip exCurve.points = some (drawContour ⟨none,
+    [⟨0, 10, some .curve, false, none, none⟩, ⟨0, 0, some .line, false, none, none⟩,
+     ⟨10, 0, none, false, none, none⟩, ⟨10, 10, none, false, none, none⟩]⟩) := by decide
+example : segRoundTrip exOpen.points = some (drawContour ⟨none, exOpen.points.map Point.strip⟩) := by decide
+/-- what the segment protocol does NOT carry (outside `SegFaithful`): a lone `line` point comes back as `move`;
+an empty contour vanishes; an off-curve-only contour whose first and last points coincide loses one point -/
+example : segRoundTrip [(⟨3, 4, some .line, false, none, none⟩ : Point Int)] =
+    some (drawContour ⟨none, [⟨3, 4, some .move, false, none, none⟩]⟩) := by decide
+example : segRoundTrip ([] : List (Point Int)) = some [] := by decide
+example : segRoundTrip [(⟨0, 0, none, false, none, none⟩ : Point Int), ⟨4, 0, none, false, none, none⟩, ⟨0, 0, none, false, none, none⟩] =
+    some (drawContour ⟨none, [⟨0, 0, none, false, none, none⟩, ⟨4, 0, none, false, none, none⟩]⟩) := by decide
+
+/-- The defect repaired by repo_fixes/C13-decompose-shallow.diff, on the model of the code as it was:
+a shallow-loaded glyph whose own contour identifiers (`c1`, `p1`) recur in the base glyph. -/
+def exDShallow : Glyph Int := exShallow "D" exD
+
+/-- unfixed code: AssertionError (the incoming `c1` is registered first, deepening the own contour then collides) -/
+theorem unfixed_decompose_shallow_violated :
+    decomposeAtUnfixed 8 exLayer exDShallow 0 = .error .assertion ∧
+    (decomposeAtUnfixed 8 exLayer (exGlyph "D" exD) 0).toOption.isSome = true := by decide
+
+/-- fixed code: the shallow-loaded glyph decomposes exactly like the new / fully loaded one -/
+theorem fixed_decompose_shallow_agrees :
+    (decomposeAt 8 exLayer exDShallow 0).toOption.map (·.draw) =
+      (decomposeAt 8 exLayer (exGlyph "D" exD) 0).toOption.map (·.draw) ∧
+    (decomposeAt 8 exLayer exDShallow 0).toOption.isSome = true := by decide
+
+end Examples
+
 end DefconModel.Props.C13
